@@ -858,8 +858,10 @@ class GCodeBuilder(GCodeCore):
         args = { **params, "X": move.x, "Y": move.y, "Z": move.z }
         statement = self._get_statement(mode, args, comment)
 
-        # Set position to unknown for any axis involved
+        # Set position to unknown for any axis involved, but only after
+        # checking that the probe does not target a point out of bounds
 
+        self.state._validate_axes(target_axes)
         target_axes = target_axes.mask(move.x, move.y, move.z)
 
         # Track parameters and write the statement
